@@ -185,11 +185,20 @@ def check_call_sites(rep, prog):
     rep.check(len(good) == 1 and not others, rule, "parsePEL returns prettyPrint(json.dumps(document, indent=4)) (or '' when nothing is selected)", "parsePEL",
               "return eid, prettyPrint(json.dumps(out, indent=4))", "the document text returned by parsePEL is %s" % [repr(t)[:100] for t in texts])
     # the count mode's fixed framing is valid JSON by construction
-    cnt = [e for e in fm.events if is_stdout_print(e) and e.func == PT + "printPELCount"]
-    okc = len(cnt) == 1
+    cnt = [e for e in fm.events if is_stdout_print(e) and PT + "printPELCount" in e.stack]
+    okc = len(cnt) == 1 and len(cnt[0].data[0]) == 1
     if okc:
+        import json as _json
         p = flat_parts(fm.norm(cnt[0].data[0][0]))
-        okc = len(p) == 3 and p[0] == Const('{\n    "Number of PELs found": ') and p[2] == Const("\n}") and isinstance(p[1], Op) and p[1].op == "str"
+        okc = len(p) == 3 and is_const(p[0], str) and is_const(p[2], str) and isinstance(p[1], Op) and \
+            (p[1].op == "str" or (p[1].op == "fv" and p[1].args[1] in (Const(""), Const("d")) and p[1].args[2] == Const("")))
+        if okc:
+            # the literal frame around the decimal count must make a JSON object with exactly the documented member
+            try:
+                docs = [_json.loads(p[0].v + str(k) + p[2].v) for k in (0, 7, 123456)]
+                okc = docs == [{"Number of PELs found": k} for k in (0, 7, 123456)]
+            except ValueError:
+                okc = False
     rep.check(okc, rule, "count mode prints a fixed JSON object around str(count)", PT + "printPELCount", "print(...)", "count output framing changed")
     return ascii_only
 
